@@ -28,7 +28,7 @@ class C17(Prop):
     }
     rule_text = (
         "one case = one generated driver-op list (<=40 ops over enqueue/enqueue-many/finish/finish(error)/"
-        "cancel-queue/start-consumer/cancel-pending-receive) + one drawn schedule (which loop iteration "
+        "cancel-queue/start-consumer (anext calls or an `async for` left early)/cancel-pending-receive/rejected second receive) + one drawn schedule (which loop iteration "
         "notices each op, how many per iteration); distinct = distinct sha256 of the full event log; "
         "non-trivial = at least one enqueue met a suspended receive (hand-off) or a cancel landed on a "
         "pending receive"
@@ -63,10 +63,10 @@ class C17(Prop):
             return value[0] if k == 0 else (None if k == 1 else ["exception-element", value[0]])
 
         init_vals = [fresh() for _ in range(initial)]
-        # weights: enq, enqmany, start, cancel_recv, finish, finish_err, cancel_q
-        weights = (6, 2, 4, 3, 1, 1, 1) if profile == "default" else (8, 3, 4, 5, 1, 0, 0)
+        # weights: enq, enqmany, start, cancel_recv, finish, finish_err, cancel_q, intrude
+        weights = (6, 2, 4, 3, 1, 1, 1, 1) if profile == "default" else (8, 3, 4, 5, 1, 0, 0, 1)
         if profile == "deep":
-            weights = (10, 3, 4, 4, 0, 0, 0)  # long histories: the queue stays open until the tail
+            weights = (10, 3, 4, 4, 0, 0, 0, 1)  # long histories: the queue stays open until the tail
         for _ in range(n):
             k = s.weighted(weights, "op")
             if k == 0:
@@ -78,18 +78,23 @@ class C17(Prop):
                     ops.append(["enqmany", [fresh() for _ in range(2 + s.draw(2, "many"))]])
             elif k == 2:
                 # consumer: pauses between receives? how many receives (0 = until the end)
-                ops.append(["start", s.draw(2, "pauses"), s.draw(4, "limit")])
+                # ... and how it receives: explicit anext() calls, or an `async for` statement left by `break`/return
+                ops.append(["start", s.draw(2, "pauses"), s.draw(4, "limit"), s.draw(2, "style")])
             elif k == 3:
                 ops.append(["cancel_recv"])
             elif k == 4:
                 ops.append(["finish"])
             elif k == 5:
                 ops.append(["finish_err"])
-            else:
+            elif k == 6:
                 ops.append(["cancel_q"])
+            else:
+                # a mistaken second receive while the consumer's receive is pending: the queue rejects it, and a rejected
+                # operation must leave the real consumer undisturbed
+                ops.append(["intrude"])
         # tail: make sure the queue finishes and a last consumer drains it completely
         ops.append(["finish"])
-        ops.append(["start", 0, 0])
+        ops.append(["start", 0, 0, 0])
         sim.program = {"initial": init_vals, "ops": ops}
         return init_vals, ops
 
@@ -191,6 +196,48 @@ class C17(Prop):
             finally:
                 st["in_recv"] = False
 
+        async def consumer_for(cid, pauses, limit):
+            # the same consumer written with `async for`; leaving the loop early and looping again later is ordinary use
+            q = holder["q"]
+            me = asyncio.current_task()
+            n = 0
+            sim.stats["consumer_async_for"] += 1
+            try:
+                st["in_recv"], st["handed"] = True, False
+                sim.event("recv-start", cid)
+                try:
+                    async for v in q:
+                        st["in_recv"] = False
+                        on_value(v, cid)
+                        n += 1
+                        if limit and n >= limit:
+                            sim.stats["async_for_left_early"] += 1
+                            return
+                        if pauses:
+                            await sim.pause(f"c{cid}")
+                        st["in_recv"], st["handed"] = True, False
+                        sim.event("recv-start", cid)
+                except asyncio.CancelledError as exc:
+                    st["in_recv"] = False
+                    if me in st["harness_cancel"]:
+                        sim.event("recv-cancelled", cid)
+                        raise
+                    check_reason(exc, "async for")
+                except BaseException as exc:  # noqa: BLE001
+                    st["in_recv"] = False
+                    from sim.loop import SimStop
+                    if isinstance(exc, SimStop):
+                        raise
+                    if any(exc is e for e in exc_elements.values()):
+                        sim.fail("element-raised", f"element {exc!r} (an exception instance used as a value) was raised by the "
+                                 f"receive instead of being returned")
+                    check_reason(exc, "async for")
+                else:
+                    st["in_recv"] = False
+                    check_reason(StopAsyncIteration(), "async for ended normally")
+            finally:
+                st["in_recv"] = False
+
         def consumer_idle():
             c = st["consumer"]
             return c is None or c.done()
@@ -233,9 +280,28 @@ class C17(Prop):
                 if not consumer_idle():
                     return  # single-consumer queue: a second concurrent consumer would be misuse
                 st["cid"] += 1
-                t = sim.loop.create_task(consumer(st["cid"], op[1], op[2]))
+                t = sim.loop.create_task((consumer_for if op[3] else consumer)(st["cid"], op[1], op[2]))
                 st["consumer"] = t
                 t.add_done_callback(on_consumer_done)
+            elif kind == "intrude":
+                c = st["consumer"]
+                if c is not None and not c.done() and st["in_recv"]:
+                    coro = q.__anext__()
+                    try:
+                        coro.send(None)
+                    except AssertionError:
+                        sim.stats["fault:second_receive_rejected"] += 1
+                        sim.event("second-receive-rejected")
+                    except BaseException:  # noqa: BLE001
+                        st["void"] = True
+                    else:
+                        coro.close()
+                        st["void"] = True
+                    if st.get("void"):
+                        # the queue let a second consumer in: the property's precondition (single consumer) no longer holds
+                        sim.stats["void_second_consumer_accepted"] += 1
+                        from sim.loop import SimAbort
+                        raise SimAbort()
             elif kind == "cancel_recv":
                 c = st["consumer"]
                 if c is not None and not c.done():
